@@ -253,7 +253,7 @@ def run(case, st):
         common.plastex_reset()
     try:
         names = list(out.files.values())
-        pages = R.read_output(out.outdir, 'utf-8')
+        pages = R.read_output(out.outdir, 'utf-8', also=names)
         bad = []
         # --- names ------------------------------------------------------
         if len(set(names)) != len(names):
@@ -369,7 +369,7 @@ if __name__ == '__main__':
     out = R.render(case['src'], case['renderer'], overrides(case))
     try:
         names = list(out.files.values())
-        pages = R.read_output(out.outdir)
+        pages = R.read_output(out.outdir, also=names)
         part = {n: MARK_RE.findall(R.canon_ids(pages.get(n, ''))) for n in names}
         print(json.dumps({'names': names, 'partition': part, 'files': sorted(pages)}))
     finally:
